@@ -18,5 +18,6 @@ func moreGens() []struct {
 		{"GenRecover.v", genRecover},
 		{"GenConsts.v", genConsts},
 		{"GenReticular.v", genReticular},
+		{"GenCli.v", genCli},
 	}, extraGens...)
 }
